@@ -52,8 +52,8 @@ pub fn dispatch(kind: &str, v: &Value) -> Option<Outcome> {
     }
 }
 
-pub fn run(ctx: &Ctx) -> i32 {
-    let mut st = ctx.run_replays(&dispatch);
+pub fn campaigns(ctx: &Ctx) -> Stats {
+    let mut st = Stats::default();
     let t = ctx.tier;
     let cfgs = conv_cfgs(t.pick(4, 6), 3, 3, t.pick(&[1, 2][..], &[1, 2, 3][..]), t.pick(&[1, 2][..], &[1, 2, 3][..]), &[vec![], vec![1], vec![2], vec![3], vec![2, 2]]);
     st.merge(ctx.run_indexed(
@@ -69,6 +69,12 @@ pub fn run(ctx: &Ctx) -> i32 {
             .boxed()
     };
     st.merge(ctx.run_prop("random-sizes-and-values", total, strat, random_case));
+    st
+}
+
+pub fn run(ctx: &Ctx) -> i32 {
+    let mut st = ctx.run_replays(&dispatch);
+    st.merge(campaigns(ctx));
     finish(
         ctx,
         st,
